@@ -56,6 +56,68 @@ def res_doc(npages, tag, rng, labels, shared_res):
     return d, uses
 
 
+def xdict(has_type, subtype, **kw):
+    """stream dictionary of an XObject; /Type /XObject is optional (ISO 32000-1 Tables 89, 95)"""
+    d = D(Subtype=N(subtype), **kw)
+    if has_type:
+        d[b"Type"] = N("XObject")
+    return d
+
+
+def res_doc2(tag, mode, flags, nested_own):
+    """6 pages around the classification of XObjects by the resource code: form XObjects with and without /Type (flags), with
+    and without their own /Resources, nested one and two levels, an image with/without /Type, an ExtGState without /Type;
+    resource dictionaries shared by reference / inherited from the /Pages node / private.  A form without /Resources takes its
+    names from the PAGE (7.8.3); the fonts F1, F2 are used ONLY through such forms, never by page content."""
+    d = pdfgen.page_doc(6, marker=tag, kids_levels=2)
+    import c12
+    objs = {(n, 0): o for n, o in d.objects.items()}
+    pages = []
+    c12.walk_pages(objs, d.objects[1][b"Pages"], pages)
+    t = tag.encode()
+    fonts = {b"F%d" % i: d.add(D(Type=N("Font"), Subtype=N("Type1"), BaseFont=N("Font%s%d" % (tag, i)))) for i in (1, 2, 3, 4)}
+    f8 = d.add(D(Type=N("Font"), Subtype=N("Type1"), BaseFont=N("Own8%s" % tag)))
+    f9 = d.add(D(Type=N("Font"), Subtype=N("Type1"), BaseFont=N("Own9%s" % tag)))
+    gs = d.add(D(LW=2) if not flags[5] else D(Type=N("ExtGState"), LW=2))
+    im = d.add(Stream(xdict(flags[4], "Image", Width=1, Height=1, ColorSpace=N("DeviceGray"), BitsPerComponent=8), b"\x80"))
+    bb = [0, 0, 10, 10]
+    ra = d.add(Stream(xdict(flags[0], "Form", BBox=bb), b"BT /F1 5 Tf (ra" + t + b") Tj ET\n"))
+    rb = d.add(Stream(xdict(flags[1], "Form", BBox=bb), b"BT /F2 5 Tf (rb" + t + b") Tj ET /Im1 Do\n"))
+    if nested_own:
+        n1 = d.add(Stream(xdict(flags[2], "Form", BBox=bb, Resources=D(Font=D(F9=f9, F1=fonts[b"F2"]))), b"BT /F9 5 Tf (n1" + t + b") Tj ET\n"))
+    else:
+        n1 = d.add(Stream(xdict(flags[2], "Form", BBox=bb), b"BT /F1 5 Tf (n1" + t + b") Tj ET\n"))       # /F1 of the page
+    oa = d.add(Stream(xdict(flags[3], "Form", BBox=bb, Resources=D(Font=D(F8=f8, F9=f9), XObject=D(N1=n1, Ra=ra))),
+                      b"BT /F8 5 Tf (oa" + t + b") Tj ET /N1 Do\n"))
+    n3 = d.add(Stream(xdict(flags[0], "Form", BBox=bb), b"BT /F2 5 Tf (n3" + t + b") Tj ET\n"))            # two levels down, page's /F2
+    n2 = d.add(Stream(xdict(flags[1], "Form", BBox=bb, Resources=D(Font=D(F9=f9), XObject=D(N3=n3))), b"BT /F9 4 Tf (n2" + t + b") Tj ET /N3 Do\n"))
+    ob = d.add(Stream(xdict(flags[2], "Form", BBox=bb, Resources=D(XObject=D(N2=n2), Font=D(F8=f8))), b"/N2 Do\n"))
+
+    def full():
+        return D(Font=dict(fonts), XObject=D(Ra=ra, Rb=rb, Oa=oa, Ob=ob, Im1=im), ExtGState=D(G1=gs))
+    paints = {1: [b"Ra"], 2: [b"Rb"], 3: [b"Oa"], 4: [b"Ob"], 5: [b"Ra", b"Rb", b"Oa", b"Ob", b"Im1"], 6: []}
+    for k, p in enumerate(pages, 1):
+        f = b"F%d" % (3 + (k % 2))
+        body = b"BT /" + f + b" 12 Tf 72 720 Td (" + b"%s%d" % (t, k) + b") Tj ET\n"
+        if k % 2 == 0:
+            body += b"/G1 gs\n"
+        for x in paints[k]:
+            body += b"/" + x + b" Do\n"
+        pg = d.objects[p.n]
+        d.objects[pg[b"Contents"].n] = Stream({}, body)
+        if mode == "inherited":
+            pg.pop(b"Resources", None)
+        elif mode == "private":
+            pg[b"Resources"] = full()
+    if mode == "shared":
+        r = d.add(full())
+        for p in pages:
+            d.objects[p.n][b"Resources"] = r
+    elif mode == "inherited":
+        d.objects[2][b"Resources"] = full()
+    return d
+
+
 def label_entries(objs, node, out, depth=0):
     node = res(objs, node)
     if not isinstance(node, dict) or depth > 20:
@@ -150,10 +212,13 @@ def effective_resources(objs, page):
     return c12.effective(objs, page, b"Resources")
 
 
-def check_uses(A, a_res, a_content, B, b_res, b_content, problems, where, depth=0):
-    """every name the (source) content uses must resolve in the output's resources to an equivalent object; forms recursively"""
+def check_uses(A, a_res, a_content, B, b_res, b_content, problems, where, depth=0, a_page=None, b_page=None):
+    """every name the (source) content uses must resolve in the output's resources to an equivalent object; forms recursively.
+    A form XObject without /Resources takes its names from the page on which it is used (ISO 32000-1 7.8.3), however deep."""
     if depth > 6:
         return
+    if depth == 0:
+        a_page, b_page = a_res, b_res
     for name, op in USE_RE.findall(a_content or b""):
         cat = CAT[op]
         sa = res(A, (res(A, res(A, a_res).get(cat)) or {}).get(name)) if isinstance(res(A, a_res), dict) else None
@@ -169,9 +234,9 @@ def check_uses(A, a_res, a_content, B, b_res, b_content, problems, where, depth=
             problems.append("%s: /%s (%s) resolves to a different object" % (where, name.decode(), cat.decode()))
             continue
         if isinstance(sa, Stream) and isinstance(sb, Stream) and op == b"Do" and sa.d.get(b"Subtype") == Name(b"Form"):
-            ra = sa.d.get(b"Resources") if res(A, sa.d.get(b"Resources")) is not None else a_res
-            rb2 = sb.d.get(b"Resources") if res(B, sb.d.get(b"Resources")) is not None else b_res
-            check_uses(A, ra, sa.data, B, rb2, sb.data, problems, where + " > form /" + name.decode(), depth + 1)
+            ra = sa.d.get(b"Resources") if res(A, sa.d.get(b"Resources")) is not None else a_page
+            rb2 = sb.d.get(b"Resources") if res(B, sb.d.get(b"Resources")) is not None else b_page
+            check_uses(A, ra, sa.data, B, rb2, sb.data, problems, where + " > form /" + name.decode(), depth + 1, a_page, b_page)
 
 
 def load(path):
@@ -210,6 +275,16 @@ def part_res(chk):
         p = os.path.join(wd, "src%s.pdf" % tag)
         open(p, "wb").write(pdfgen.write_classic(d)[0])
         srcs[tag] = (p, n, load(p))
+    # the neighbourhood of "XObjects are classified by /Subtype, /Type is optional": (mode, /Type flags of Ra,Rb,N1/Ob,Oa,image,gs; nested form with own resources?)
+    wide = [("G", "shared", (0, 0, 0, 0, 0, 0), False), ("H", "inherited", (1, 0, 0, 1, 0, 1), False), ("I", "private", (0, 1, 1, 0, 1, 0), True),
+            ("J", "shared", (1, 1, 1, 1, 1, 1), True)]
+    if not quick:
+        wide += [("K", "inherited", (0, 0, 1, 1, 1, 0), True), ("L", "private", (1, 0, 0, 0, 0, 0), False), ("M", "shared", (0, 1, 0, 1, 0, 1), True)]
+    for tag, mode, flags, nested_own in wide:
+        d = res_doc2(tag, mode, flags, nested_own)
+        p = os.path.join(wd, "src%s.pdf" % tag)
+        open(p, "wb").write(pdfgen.write_classic(d)[0])
+        srcs[tag] = (p, 6, load(p))
     P = {t: srcs[t][0] for t in srcs}
     rur = ["--remove-unreferenced-resources=yes"]
     jobs = [
@@ -222,9 +297,19 @@ def part_res(chk):
         ([P["S"], "--pages", P["S"], "1", P["R"], "5,6", "--"], [("S", 1), ("R", 5), ("R", 6)]),
         ([P["R"], "--remove-unreferenced-resources=no", "--pages", P["R"], "6,3", "--"], [("R", 6), ("R", 3)]),
     ]
+    rurs = {"yes": rur, "no": ["--remove-unreferenced-resources=no"], "auto": []}
+    for wi, (tag, mode, flags, nested_own) in enumerate(wide):
+        all6 = [(tag, k) for k in range(1, 7)]
+        jobs.append(([P[tag]] + rurs["yes"] + ["--pages", P[tag], "1-z", "--"], all6))
+        jobs.append(([P[tag]] + rurs["auto"] + ["--pages", P[tag], "z-1", "--"], all6[::-1]))
+        other = wide[(wi + 1) % len(wide)][0]
+        jobs.append(([P[other]] + rurs[("auto", "yes", "no")[wi % 3]] + ["--pages", P[other], "6,5", P[tag], "1-4", "--"],
+                     [(other, 6), (other, 5)] + all6[:4]))
+        if wi % 2 == 0:
+            jobs.append(([P[tag]] + rurs["no"] + ["--pages", P[tag], "2,1,3,4", "--"], [(tag, 2), (tag, 1), (tag, 3), (tag, 4)]))
     if not quick:
         for _ in range(60):
-            tags = [rng.choice("RSTU") for _ in range(rng.randint(1, 3))]
+            tags = [rng.choice("RSTU" + "".join(w[0] for w in wide)) for _ in range(rng.randint(1, 3))]
             args, want = [P[tags[0]]] + (rur if rng.random() < 0.5 else []) + ["--pages"], []
             for t in tags:
                 n = srcs[t][1]
@@ -236,9 +321,23 @@ def part_res(chk):
     for ji, (args, want) in enumerate(jobs):
         cases.append(("pages", ji, args, want))
     # split: every chunk is a selection of its source
-    for tag in ("R", "T"):
+    for tag in ("R", "T") + tuple(w[0] for w in wide[:2 if quick else len(wide)]):
         for n in (1, 2):
             cases.append(("split", len(cases), [P[tag], "--split-pages=%d" % n], [(tag, k) for k in range(1, srcs[tag][1] + 1)], n))
+
+    # --pages combined with --split-pages: the chunks are chunks of the SELECTED sequence (labels must be those of the selection)
+    for ptag, sels, n in (("R", [("R", "6-1")], 6), ("R", [("R", "4,2,6")], 2), ("T", [("T", "5,1-3")], 3), ("S", [("S", "3,1")], 1),
+                          ("R", [("R", "1-z")], 4), ("S", [("S", "1-2"), ("R", "3-4")], 2), ("T", [("R", "2"), ("T", "z-4")], 3)):
+        args, want = [P[ptag], "--pages"], []
+        for tg, sel in sels:
+            args += [P[tg], sel]
+            for part in sel.split(","):
+                if "-" in part:
+                    a, b = [srcs[tg][1] if x == "z" else int(x) for x in part.split("-")]
+                    want += [(tg, k) for k in (range(a, b + 1) if a <= b else range(a, b - 1, -1))]
+                else:
+                    want.append((tg, int(part)))
+        cases.append(("psplit", len(cases), args + ["--", "--split-pages=%d" % n], want, n, ptag))
 
     def runcase(c):
         if c[0] == "pages":
@@ -254,9 +353,9 @@ def part_res(chk):
     for c, (rc, se, outs) in zip(cases, results):
         desc = {"argv": ["qpdf"] + [a.replace(wd + "/", "") for a in c[2]] + ["out.pdf"]}
 
-        def fail(why, **kw):
+        def fail(why, sig=None, **kw):
             chk.violation(dict({"kind": "property-fails-on-implementation", "part": "cli-resources-labels", "case": desc, "why": why,
-                                "exit": rc, "stderr": se.decode("latin-1")[-300:]}, **kw), signature="C12:res:" + why[:40])
+                                "exit": rc, "stderr": se.decode("latin-1")[-300:]}, **kw), signature=sig or ("C12:res:" + why[:40]))
         if rc != 0 or not outs or any(o is None for o in outs):
             fail("valid job refused, warned or output unreadable")
             continue
@@ -271,8 +370,9 @@ def part_res(chk):
             fail("page count differs", expected=len(want), got=len(seq))
             continue
         problems = []
+        stale = []
         selected_markers = set()
-        for (objs, root, p, j), (tag, k) in zip(seq, want):
+        for g, ((objs, root, p, j), (tag, k)) in enumerate(zip(seq, want)):
             A, aroot, apages = srcs[tag][2]
             ap = apages[k - 1]
             ac, bc = page_content(A, ap), page_content(objs, p)
@@ -297,7 +397,17 @@ def part_res(chk):
             la = (la[0].decode() if isinstance(la[0], bytes) else la[0], la[1], la[2])
             lb = (lb[0].decode() if isinstance(lb[0], bytes) else lb[0], lb[1], lb[2])
             if la != lb:
-                problems.append("page %d (source %s%d): effective label %r became %r" % (j + 1, tag, k, la, lb))
+                msg = "page %d (source %s%d): effective label %r became %r" % (j + 1, tag, k, la, lb)
+                if c[0] == "psplit":
+                    # finding C12-F-split-labels: the chunk carries the label the ORIGINAL label tree of the primary input gives to
+                    # position g of the whole sequence (doSplitPages reads a label helper cached before /PageLabels was rebuilt)
+                    Ap, prootp, _ = srcs[c[5]][2]
+                    lo = label_at(Ap, prootp, g) or (b"D", b"", j + 1)     # a primary without labels: the chunk gets no /PageLabels at all
+                    lo = (lo[0].decode() if isinstance(lo[0], bytes) else lo[0], lo[1], lo[2])
+                    if lo == lb:
+                        stale.append(msg)
+                        continue
+                problems.append(msg)
         # unselected content
         for o in outs:
             objs = o[0]
@@ -309,6 +419,9 @@ def part_res(chk):
                         problems.append("content of unselected page %s%d is present in the output" % (tag, k))
         if problems:
             fail(problems[0], all_problems=problems[:8])
+        elif stale:
+            fail(stale[0] + " = the label of position %s in the primary input's ORIGINAL label tree" % "g", sig="C12:pages+split-pages:labels-from-original-tree",
+                 all_problems=stale[:8])
         else:
             nontriv.add(c[1])
     chk.count("cli-resources-labels", len(cases), nontriv, samples=[{"argv": [a.replace(wd + "/", "") for a in cases[0][2]]}])
